@@ -1,7 +1,7 @@
 (* LinearGrid.v — the Lebesgue-constant hypotheses of the whole-grid theorems, DISCHARGED for every increasing grid with linear interpolation
    (d = 1): on every area the block is the area itself, sum_j |l_j| = 1 and sum_j |l_j'| = 2 / (x_(i+1) - x_i).  Hence the error bounds of
    GlobalLipschitz hold on such grids from the smoothness of f and the spacing alone. *)
-From Coq Require Import Reals List Lra Lia Arith Bool.
+From Coq Require Import Reals List Lra Lia Arith Bool Psatz.
 From Coquelicot Require Import Coquelicot.
 From Yad Require Import Base Interp InterpTheorems InterpReal InterpDeriv GlobalInterp GlobalLipschitz GridExample Conv ConvGen ConvError.
 Import ListNotations.
@@ -88,4 +88,23 @@ Proof.
   intros i Hi. rewrite (block_d1 _ _ Hi). cbn [fst snd]. replace (i + 1)%nat with (S i) by lia. split; [apply Hh, Hi|].
   intros u Hu. destruct (linear_grid_lebesgue ns i u Hs Hi Hu) as [E1 E2]. rewrite E1, E2. split; [lra|].
   destruct (Hh i Hi) as [Hlo _]. unfold Rdiv. apply Rmult_le_compat_l; [lra|]. apply Rinv_le_contravar; assumption.
+Qed.
+(* refinement of linear grids converges uniformly, with an explicit mesh width: spacings <= min(1, eps/(M+1)) give a sup error <= eps *)
+Theorem linear_grid_converges f M eps : 0 <= M -> 0 < eps -> exists delta, 0 < delta /\
+  forall ns t, sorted ns -> (1 < length ns)%nat ->
+  (forall w, nth 0 ns 0 <= w <= nth (length ns - 1) ns 0 -> forall k, (k <= 2)%nat -> ex_derive_n f k w) ->
+  (forall w, nth 0 ns 0 < w < nth (length ns - 1) ns 0 -> Rabs (Derive_n f 2 w) <= M) ->
+  (forall i, (i + 1 < length ns)%nat -> nth (S i) ns 0 - nth i ns 0 <= delta) ->
+  nth 0 ns 0 <= t <= nth (length ns - 1) ns 0 -> Rabs (Iglobal ns 1 f t - f t) <= eps.
+Proof.
+  intros M0 He. set (q := eps / (M + 1)).
+  assert (Hq : 0 < q) by (apply Rmult_lt_0_compat; [exact He | apply Rinv_0_lt_compat; lra]).
+  assert (Eq : q * (M + 1) = eps) by (unfold q; field; lra).
+  exists (Rmin 1 q). split; [apply Rmin_glb_lt; lra|].
+  intros ns t Hs Hn Hd HM Hh Ht.
+  eapply Rle_trans; [apply (linear_grid_error_sup ns f M (Rmin 1 q) t Hs Hn Hd HM Hh Ht)|].
+  pose proof (Rmin_l 1 q) as L1. pose proof (Rmin_r 1 q) as L2.
+  assert (P : 0 < Rmin 1 q) by (apply Rmin_glb_lt; lra).
+  set (d := Rmin 1 q) in *. simpl pow. rewrite Rmult_1_r.
+  assert (d * d <= q) by nra. nra.
 Qed.
